@@ -438,6 +438,16 @@ impl<T: Transport, E: UtpEnvironment> Dispatcher<T, E> {
                     let _ = sender.tx.send(Err(Error::TooManyActiveConnections));
                     return;
                 }
+                // Don't send a SYN we would not be able to track.
+                if self
+                    .connecting
+                    .get(&addr)
+                    .is_some_and(|c| c.len >= MAX_CONNECTING_PER_ADDR)
+                {
+                    debug!(?addr, "too many concurrent connects to this address");
+                    let _ = sender.tx.send(Err(Error::TooManyActiveConnections));
+                    return;
+                }
                 let conn_id = self.get_next_free_conn_id(addr);
                 let header = UtpHeader {
                     htype: Type::ST_SYN,
